@@ -88,9 +88,11 @@ class Opaque:
     def __init__(self, what): self.what = what
 
 
-SPEC_UFS = {'Fstate', 'Fnext', 'Fout', 'depth', 'dom', 'cidx', 'kidx', 'pidx', 'nearest', 'wireof'}
+SPEC_UFS = {'Fstate', 'Fnext', 'Fout', 'depth', 'dom', 'cidx', 'kidx', 'pidx', 'nearest', 'wireof',
+            # abstract rationals (carrier: any injection Q -> Z): value of a (sign, exponent, mantissa, precision) tuple and the field operations
+            'val', 'qadd', 'qsub', 'qmul', 'qneg', 'qcmp'}
 ACCESSORS = {'getSinks': 'sinks', 'getSource': 'source', 'getWidth': 'width'}
-SPEC_PREDS = {'dep', 'propagatable', 'clockable'}
+SPEC_PREDS = {'dep', 'propagatable', 'clockable', 'integ', 'pow2p'}
 
 
 def items_of(ex, st, ref):
@@ -110,6 +112,7 @@ class HeapExec(symexec.Executor):
         self.classes = set(classes or ()) | {'Wire', 'Logic', 'Exception', 'BidirWire', 'HWSystem', 'Simulator', 'ClockDriverSimulator', 'str', 'int', 'FieldInspector', 'ValueFormatter', 'Waveform', 'InPort', 'OutPort'}
         self.ghost = ghost or {}
         self.written = set()                    # map names written (for frame obligations)
+        self.known_refs = []                    # references a newly allocated object is known to differ from
 
     def merge_states(self, c, sa, sb):
         return merge_states_heap(c, sa, sb, self)
@@ -174,7 +177,23 @@ class HeapExec(symexec.Executor):
     def e_Name(self, n, st):
         if n.id in st.loc:
             v = st.loc[n.id]
-            if v is symexec.UNBOUND or isinstance(v, symexec.MaybeUnbound):
+            if isinstance(v, symexec.MaybeUnbound):
+                # bound on some paths only: reading it is an obligation (NameError otherwise), its value the bound one
+                def res(x):
+                    if x is symexec.UNBOUND: return ir.FALSE, None
+                    if isinstance(x, symexec.MaybeUnbound):
+                        ca, va = res(x.a); cb, vb = res(x.b)
+                        cond = ir.bor_(ir.band_(x.c, ca), ir.band_(ir.not_(x.c), cb))
+                        if va is None: return cond, vb
+                        if vb is None: return cond, va
+                        if not (isinstance(va, T) and isinstance(vb, T)): raise Unsupported('partially bound local %s of mixed kinds' % n.id)
+                        return cond, ir.ite(x.c, va, vb)
+                    return ir.TRUE, x
+                cond, val = res(v)
+                if val is None: raise Unsupported('unbound local %s (line %s)' % (n.id, n.lineno))
+                self.oblige('local_bound[%s]' % n.id, st, cond, n, 'NameError otherwise')
+                return val
+            if v is symexec.UNBOUND:
                 raise Unsupported('possibly unbound local %s (line %s)' % (n.id, n.lineno))
             return v
         if n.id in self.classes: return ClassRef(n.id)
@@ -210,6 +229,8 @@ class HeapExec(symexec.Executor):
         return 'EMPTY_DICT'
 
     def subscript(self, base, idx, st, n=None):
+        if isinstance(base, tuple) and isinstance(idx, T) and ir.is_const(idx) and 0 <= idx.val < len(base):
+            return base[idx.val]            # *args of a fixed arity
         if isinstance(base, ListH):
             idx = ir.as_int(idx)
             self.oblige('index_in_range', st, ir.band_(ir.ge(idx, 0), ir.lt(idx, self.list_len(st, base))), n, 'list index')
@@ -274,19 +295,29 @@ class HeapExec(symexec.Executor):
                 self.bound = dict(saved_bound)
                 for a in lam.args.args:
                     bn = '%s_q%d' % (a.arg, next(_fresh)); names.append(bn); st.loc[a.arg] = ir.var(bn); self.bound[a.arg] = st.loc[a.arg]
+                saved_pats = getattr(self, '_pats', None); self._pats = []
                 try:
                     body = self.truth(self.ev(lam.body, st))
+                    pats = self._pats
                 finally:
-                    st.loc = saved; self.bound = saved_bound
-                return ir.forall(names, body) if nm == 'forall' else ir.exists(names, body)
+                    st.loc = saved; self.bound = saved_bound; self._pats = saved_pats
+                return ir.forall(names, body, pats) if nm == 'forall' else ir.exists(names, body)
+            if nm == 'pat':
+                # pat(t1, ..., body): body, with t1... recorded as the instantiation trigger of the enclosing forall
+                if getattr(self, '_pats', None) is None: raise Unsupported('pat() outside a quantifier')
+                self._pats.extend(ir.as_int(self.ev(a, st)) for a in n.args[:-1])
+                return self.ev(n.args[-1], st)
             if nm == 'isinstance':
                 x = self.ev(n.args[0], st); cls = self.ev(n.args[1], st)
                 if isinstance(x, StrConst): return ir.bconst(isinstance(cls, ClassRef) and cls.name == 'str')
+                if isinstance(cls, ClassRef) and cls.name == 'int' and getattr(self, 'numeric_int', False) and isinstance(x, T):
+                    return ir.TRUE          # contract option: numeric values are Python ints (the model has no floats)
                 if isinstance(cls, ClassRef) and isinstance(x, T): return ir.ufb('isinstance_' + cls.name, x)
                 raise Unsupported('isinstance form')
             if nm == 'len':
                 x = self.ev(n.args[0], st)
                 if isinstance(x, ListH): return self.list_len(st, x)
+                if isinstance(x, tuple) and not (x and x[0] == 'range'): return ir.const(len(x))
                 if isinstance(x, StrConst): return ir.const(len(x.s))
                 raise Unsupported('len of %r' % (x,))
             if nm == 'range':
@@ -309,6 +340,16 @@ class HeapExec(symexec.Executor):
                 return symexec.BUILTINS[nm](self, st, n, *[self.ev(a, st) for a in n.args])
             if ('f:' + nm) in self.contracts:
                 return self.apply_contract(self.contracts['f:' + nm], None, [self.ev(a, st) for a in n.args], st, n)
+            if ('new:%s/%d' % (nm, len(n.args))) in self.contracts:
+                # allocation: a fresh reference, distinct from None, from the reference arguments of the function under
+                # proof and from every object allocated earlier in this execution; its fields start arbitrary and are
+                # constrained only by the contract of __init__ (proved separately for this number of arguments)
+                args = [self.ev(a, st) for a in n.args]
+                r = self.fresh('new_' + nm)
+                self.assumptions.append(ir.implies(st.pc, ir.band_(ir.ne(r, NONE), *[ir.ne(r, x) for x in self.known_refs])))
+                self.known_refs.append(r)
+                self.apply_contract(self.contracts['new:%s/%d' % (nm, len(n.args))], r, args, st, n)
+                return r
             if nm in self.classes and nm == 'Exception':
                 return Opaque('exception')
             raise Unsupported('call to %s (line %s)' % (nm, n.lineno))
@@ -572,6 +613,7 @@ class HeapExec(symexec.Executor):
     def s_For(self, s, st):
         ordinal = self.loop_ordinal; self.loop_ordinal += 1
         it = self.ev(s.iter, st)
+        values_of = None
         inv = self.loop_invariants.get(ordinal)
         if inv is None:
             raise Unsupported('loop %d needs an invariant (line %s)' % (ordinal, s.lineno))
@@ -581,11 +623,12 @@ class HeapExec(symexec.Executor):
             elem = None
         elif isinstance(it, ListH):
             lo = ir.const(0); hi = self.list_len(st, it); elem = it
-        elif isinstance(it, (DictH, KeysH)):
-            # iteration over dict keys in insertion order: modelled through the ghost key list of the dict
-            d = it.d if isinstance(it, KeysH) else it
+        elif isinstance(it, (DictH, KeysH, ValuesH)):
+            # iteration over dict keys / values in insertion order: modelled through the ghost key list of the dict
+            d = it.d if isinstance(it, (KeysH, ValuesH)) else it
             elem = ListH(d.owner, '#keys:' + d.attr)
             lo = ir.const(0); hi = self.list_len(st, elem)
+            if isinstance(it, ValuesH): values_of = d
         else:
             raise Unsupported('iteration over %r (line %s)' % (it, s.lineno))
         locs, maps = self._loop_writes(s.body)
@@ -599,6 +642,8 @@ class HeapExec(symexec.Executor):
             state.loc[ivar] = i
             if elem is None:
                 self.assign_to(s.target, i, state)
+            elif values_of is not None:
+                self.assign_to(s.target, self.fmap(state, 'val:' + values_of.attr, 2).read(values_of.owner, self.list_at(state, elem, i)), state)
             else:
                 self.assign_to(s.target, self.list_at(state, elem, i), state)
         nonempty = ir.lt(lo, hi)
@@ -626,8 +671,12 @@ class HeapExec(symexec.Executor):
         ex = self._havoc_for_loop(st, locs, maps, 'ex%d' % ordinal)
         hi_x = hi if elem is None else self.list_len(ex, elem)
         ex.loc[ivar] = ir.ite(ir.lt(lo, hi_x), hi_x, lo)
-        self.assumptions.append(ir.implies(st.pc, self.truth(self.eval_spec(inv, ex))))
-        ex.pc = st.pc
+        # the invariant at exit is a fact about the state reached when the loop completes *normally*: it is guarded by a
+        # fresh completion flag that is part of the path condition of the continuation only (a body that raises or returns
+        # never reaches the exit state, so the fact must not be visible to obligations of those paths)
+        done = ir.ne(self.fresh('done%d' % ordinal), 0)
+        self.assumptions.append(ir.implies(ir.band_(st.pc, done), self.truth(self.eval_spec(inv, ex))))
+        ex.pc = ir.band_(st.pc, done)
         outs.append(Outcome('fall', ex))
         return outs
 
@@ -651,8 +700,9 @@ class HeapExec(symexec.Executor):
                 outs.append(o)
         ex = self._havoc_for_loop(st, locs, maps, 'wx%d' % ordinal)
         cx = self.truth(self.ev(s.test, ex))
-        self.assumptions.append(ir.implies(st.pc, ir.band_(self.truth(self.eval_spec(inv, ex)), ir.not_(cx))))
-        ex.pc = st.pc
+        done = ir.ne(self.fresh('wdone%d' % ordinal), 0)
+        self.assumptions.append(ir.implies(ir.band_(st.pc, done), ir.band_(self.truth(self.eval_spec(inv, ex)), ir.not_(cx))))
+        ex.pc = ir.band_(st.pc, done)
         outs.append(Outcome('fall', ex))
         return outs
 
